@@ -5,6 +5,7 @@ import (
 	"encoding/hex"
 	"fmt"
 	"sort"
+	"strings"
 	"sync"
 
 	"github.com/cloudflare/circl/internal/verifref/eddsa"
@@ -135,7 +136,11 @@ func Judge(rep Reporter, par ParFor, unit string, v *eddsa.Variant, entries []En
 			rep.Outcome(vd.Class.String() + ":" + acc)
 			switch {
 			case vd.Class == eddsa.MustReject && got:
-				df.violation(i, "C05|"+e.Name+"|accepts-must-reject|"+vd.Reason+"|"+cs.Group, id,
+				grp := cs.Group
+				if strings.Contains(grp, "alias") {
+					grp += ":" + cs.Lax // which decoding rule the alias string violates
+				}
+				df.violation(i, "C05|"+e.Name+"|accepts-must-reject|"+vd.Reason+"|"+grp, id,
 					fmt.Sprintf("%s accepts although RFC 8032 verification must reject (%s); case %s", e.Name, vd.Reason, cs.ID), replay)
 			case vd.Class == eddsa.MustAccept && !got:
 				df.violation(i, "C05|"+e.Name+"|rejects-must-accept|"+cs.Group, id,
